@@ -150,6 +150,8 @@ func (r *Runner) Exec(line string) error {
 		r.emit(op, s.Gov(op), nil, true)
 	case "jump":
 		r.emit(op, s.Jump(op), nil, true)
+	case "inspect":
+		r.emit(op, s.Inspect(), nil, false)
 	case "mintprobe":
 		r.emit(op, "accept", s.MintProbe(op.i64("t")), false)
 	case "query":
@@ -170,6 +172,35 @@ func (r *Runner) Exec(line string) error {
 		return fmt.Errorf("unknown operation %q", op.Kind)
 	}
 	return nil
+}
+
+// Inspect implements `inspect`: every listing getter of the hub keepers (the reads the generator itself makes to
+// look at the state: all providers, nodes, plans with their linked nodes, subscriptions with their allocations,
+// payouts, sessions, deposits, swaps) is called once; a panic inside one of them - a dangling index entry, a
+// record that does not decode - is the result `halt:<text>`. The generator emits it when one of its own reads
+// panicked, so that a state the implementation cannot read is a recorded failing operation, not a crash of the
+// harness.
+func (s *Sim) Inspect() (res string) {
+	defer func() {
+		if x := recover(); x != nil {
+			res = "halt:" + firstWords(fmt.Sprint(x))
+		}
+	}()
+	ctx := s.QueryCtx()
+	k := &s.App.VPNKeeper
+	k.Deposit.GetDeposits(ctx)
+	k.Provider.GetProviders(ctx)
+	k.Node.GetNodes(ctx)
+	for _, p := range k.Plan.GetPlans(ctx) {
+		k.Node.GetNodesForPlan(ctx, p.ID)
+	}
+	for _, x := range k.Subscription.GetSubscriptions(ctx) {
+		k.Subscription.GetAllocationsForSubscription(ctx, x.GetID())
+	}
+	k.Subscription.GetPayouts(ctx)
+	k.Session.GetSessions(ctx)
+	s.App.SwapKeeper.GetSwaps(ctx)
+	return "accept"
 }
 
 // Jump implements `jump module=plan|subscription|session n=<u64>`: the identifier counter of one module is
